@@ -520,6 +520,18 @@ theorem C17_dag_misuse_panic_wrong_mode_witness :
       (c.1.heap 0).readers = 1 ∧ (c.1.heap 0).writer = false ∧ c.1.ent 1 = some 0 ∧ c.1.cnt 1 = 1 ∧ c.1.dm = false := by
   decide
 
+/-- Part (c): a wrong mode at the k-th id.  `RLock(1,2); Lock(3); RUnlock(1,3,2)` passes the lookup (all three are
+registered), releases the read lock of entity 1 (object 0), panics inside `StarvingMutex.RUnlock` of entity 3 (object 2,
+write-locked: its lock state is untouched, its internal mutex stays locked) and never reaches entity 2 (object 1, still
+read-locked): k−1 = 1 read lock released, *all three* registrations in place, `d.Mutex` free. -/
+theorem C17_dag_misuse_panic_kth_id_witness :
+    let c := Conc.runSched Comp.sys (Comp.initCfg [[.rlock [1, 2], .lock 3, .runlock [1, 3, 2]]]) (List.replicate 24 (0, 0))
+    c.2.map (fun t => (t.ctl, t.ipc)) = [(.inner (.ru [1] [1, 3, 2]), .dead)] ∧
+      [1, 2, 3].map c.1.cnt = [1, 1, 1] ∧ [1, 2, 3].map c.1.ent = [some 0, some 1, some 2] ∧
+      [0, 1, 2].map (fun o => ((c.1.heap o).readers, (c.1.heap o).writer, (c.1.heap o).m)) =
+        [(0, false, false), (1, false, false), (0, true, true)] ∧ c.1.dm = false := by
+  decide
+
 /-- Non-vacuity: goroutine 0 holds entity 1 for writing and is parked in `RLock` of entity 2, which
 goroutine 1 holds for writing; goroutine 2 is parked in `Lock(1)`. -/
 example :
